@@ -121,6 +121,17 @@ func main() {
 			}
 		}
 		os.Exit(0)
+	case "names":
+		prog, pkgs, err := loadProgram(*repo, nil)
+		if err != nil {
+			fmt.Println(err)
+			os.Exit(2)
+		}
+		if err := writeNameBaseline(prog, pkgs, filepath.Join(*verifDir, "names.json")); err != nil {
+			fmt.Println(err)
+			os.Exit(2)
+		}
+		os.Exit(0)
 	case "mutants":
 		n := 12
 		if v := os.Getenv("GOVC_MUTANTS_PER_FUNC"); v != "" {
@@ -137,6 +148,7 @@ func main() {
 
 func runCheck(prop, repo, verifDir, tier, only string, workers int, verbose, noEvidence bool) int {
 	t0 := time.Now()
+	loadNameBaseline(filepath.Join(verifDir, "names.json"))
 	for _, e := range loadKnownFindings(filepath.Join(verifDir, "KNOWN_FINDINGS.txt")).entries {
 		if e.prop == prop {
 			knownFindingBases[e.ob] = true
